@@ -252,7 +252,7 @@ Section Loop.
     match type of HS with rbind ?X _ = _ => destruct X as [[sta tag]| | |] eqn:Esta end; cbn [rbind] in HS; try discriminate.
     assert (Ha : stI sta /\ ext st sta).
     { destruct (m_download m) as [d|].
-      - injection Esta as <- _. split; [exact I0|eapply ext_trans; [exact X0|apply ext_add_dldir]].
+      - injection Esta as <- _. split; [exact I0|exact X0].
       - unfold rmap in Esta. destruct (expand_eval EV flat PIgnore srcdir); cbn [rbind] in Esta; try discriminate.
         injection Esta as <- _. split; assumption. }
     destruct Ha as [Ia Xa]. clear Esta.
